@@ -137,6 +137,17 @@ inductive Op where
   | declPtr (d : Nat)                 -- `T *d;`
   | strArrayAlloc (d s n l : Nat)     -- `char **d = ShroudStrArrayAlloc(s, n, l)`
   | strArrayFree (v n : Nat)
+  | ctxCcharp (c v : Nat)             -- `c->addr.ccharp = v`
+  | ctxElemLenStr (c v v2 : Nat)      -- `c->elem_len = v == NULL ? 0 : strlen(v2)`
+  | ctxSize1 (c : Nat)
+  | ctxRank0 (c : Nat)
+  | strToArray (c v : Nat)            -- `ShroudStrToArray(c, &v, idtor)`
+  | newString (d : Nat)               -- `std::string *d = new std::string`
+  | allocCharCtx (c f : Nat)          -- `allocate(character(len=c%elem_len):: f)`
+  | copyStringF (c f c2 : Nat)        -- `call copy_string(c, f, c2%elem_len)`  (ShroudCopyStringAndFree)
+  | vecStrIn (d s n l : Nat)          -- the `push_back(std::string(BBB, ShroudLenTrim(BBB, len)))` loop
+  | vecStrOut (s n l v : Nat)         -- the `ShroudStrCopy(BBB, len, v[i].data(), v[i].size())` loop
+  | vecStrDecl (d : Nat)              -- `std::vector<std::string> d;`
   | opaque (code : Nat)               -- not modelled
   deriving Repr, DecidableEq
 
@@ -185,6 +196,17 @@ def Op.ofRaw : Nat × List Nat → Op
   | (76, [p, r]) => .cfPointerRes p r
   | (80, [d, s, n, l]) => .strArrayAlloc d s n l
   | (81, [v, n]) => .strArrayFree v n
+  | (82, [c, v]) => .ctxCcharp c v
+  | (83, [c, v, v2]) => .ctxElemLenStr c v v2
+  | (84, [c]) => .ctxSize1 c
+  | (85, [c]) => .ctxRank0 c
+  | (86, [c, v]) => .strToArray c v
+  | (87, [d]) => .newString d
+  | (88, [c, f]) => .allocCharCtx c f
+  | (89, [c, f, c2]) => .copyStringF c f c2
+  | (90, [d, s, n, l]) => .vecStrIn d s n l
+  | (91, [s, n, l, v]) => .vecStrOut s n l v
+  | (92, [d]) => .vecStrDecl d
   | (c, _) => .opaque c
 
 /-- the array context struct (`<lib>_SHROUD_array`) as far as the wrappers fill and read it -/
@@ -203,9 +225,15 @@ structure Ctx where
   size : Nat
   rank : Nat
   shape : List Nat
+  /-- `addr.ccharp`: NULL, or the character block found there -/
+  ccharp : Option Buf
+  /-- the value stored in `elem_len` (character results) -/
+  elemLenV : Nat
+  /-- the capsule owns a heap `std::string` (released by ShroudCopyStringAndFree) -/
+  ownerStr : Bool
   deriving Repr, DecidableEq
 
-def Ctx.empty : Ctx := ⟨none, false, false, none, 0, false, false, 0, 0, []⟩
+def Ctx.empty : Ctx := ⟨none, false, false, none, 0, false, false, 0, 0, [], none, 0, false⟩
 
 inductive Val where
   | int (i : Int)        -- integers; reals as opaque ids
@@ -218,6 +246,7 @@ inductive Val where
   | ctx (c : Ctx)        -- array context struct
   | carr (n len : Nat) (b : Buf)  -- Fortran `character(len=len) :: x(n)`: n*len contiguous bytes
   | ptrs (l : List Buf)  -- `char **`: the blocks the pointers designate
+  | vstr (l : List (List Nat))  -- std::vector<std::string>
   | ref (addr : Nat) (a : List Int)  -- a C pointer / Fortran pointer: address and the elements found there
   | null
   deriving Repr, DecidableEq
@@ -349,7 +378,8 @@ def execOp (o : Op) (s : St) : Res St :=
   | .strCopyStd d n src src2 =>
     match s.buf d, s.nat n, s.get src with
     | some b, some n, some (.str t) =>
-      if src == src2 then liftBuf s d (strCopy b n (some (t ++ [NUL])) (narrow32 t.length)) else .oob   -- `int nsrc = s.size()`
+      -- `int nsrc = s.size()`: a size that does not fit `int` is outside the model (C10: narrow32)
+      if src == src2 ∧ t.length < 2147483648 then liftBuf s d (strCopy b n (some (t ++ [NUL])) (t.length : Int)) else .oob
     | _, _, _ => .oob
   | .strCopyNull d n =>
     match s.buf d, s.nat n with
@@ -489,6 +519,61 @@ def execOp (o : Op) (s : St) : Res St :=
         if s.heap < freed then .oob else .ok { (s.set v .null) with heap := s.heap - freed }
       | .oob => .oob
     | _, _ => .oob
+  | .ctxCcharp c v =>
+    match s.ctx c, s.get v with
+    | some x, some (.buf b) => .ok (s.set c (.ctx { x with ccharp := some b }))
+    | some x, some .null => .ok (s.set c (.ctx { x with ccharp := none }))
+    | _, _ => .oob
+  | .ctxElemLenStr c v v2 =>
+    if v != v2 then .oob else
+    match s.ctx c, s.get v with
+    | some x, some (.buf b) =>
+      match charResultCtx (some b) with
+      | .ok r => .ok (s.set c (.ctx { x with elemLenV := r.2 }))
+      | .oob => .oob
+    | some x, some .null => .ok (s.set c (.ctx { x with elemLenV := 0 }))
+    | _, _ => .oob
+  | .ctxSize1 c => match s.ctx c with
+    | some x => .ok (s.set c (.ctx { x with size := 1 }))
+    | none => .oob
+  | .ctxRank0 c => match s.ctx c with
+    | some x => .ok (s.set c (.ctx { x with rank := 0 }))
+    | none => .oob
+  | .strToArray c v =>
+    match s.ctx c, s.get v with
+    | some x, some (.str t) =>
+      .ok (s.set c (.ctx { x with ccharp := (Shroud.Str.strToArray t).1, elemLenV := (Shroud.Str.strToArray t).2, idtor := true,
+                                   ownerStr := decide (0 < s.heap) }))
+    | _, _ => .oob
+  | .newString d => .ok { (s.set d (.str [])) with heap := s.heap + 1 }
+  | .allocCharCtx c f => match s.ctx c with
+    | some x => .ok (s.set f (.buf (List.replicate x.elemLenV UNINIT)))
+    | none => .oob
+  | .copyStringF c f c2 =>
+    if c != c2 then .oob else
+    match s.ctx c, s.buf f with
+    | some x, some b =>
+      match copyString x.ccharp x.elemLenV b x.elemLenV with
+      | .ok r =>
+        if x.ownerStr then (if s.heap = 0 then .oob else .ok { (s.set f (.buf r)) with heap := s.heap - 1 })
+        else .ok (s.set f (.buf r))
+      | .oob => .oob
+    | _, _ => .oob
+  | .vecStrIn d src n l =>
+    match s.get src, s.nat n, s.nat l with
+    | some (.carr _ _ b), some n, some l =>
+      match vecStringIn b l 0 n with
+      | .ok vs => .ok (s.set d (.vstr vs))
+      | .oob => .oob
+    | _, _, _ => .oob
+  | .vecStrOut dst n l v =>
+    match s.get dst, s.nat n, s.nat l, s.get v with
+    | some (.carr a c b), some n, some l, some (.vstr vs) =>
+      match vecStringOut b l 0 n vs with
+      | .ok b' => .ok (s.set dst (.carr a c b'))
+      | .oob => .oob
+    | _, _, _, _ => .oob
+  | .vecStrDecl d => .ok (s.set d (.vstr []))
   | .ifEmpty _ | .else_ | .endIf => .ok s
   | .opaque _ => .oob
 
